@@ -307,11 +307,18 @@ def quiet():
 
 
 def _run_shard(args):
-    pid, tier, seed, shard, nshards = args
+    pid, tier, seed, shard, nshards = args[:5]
+    replay_files = args[5] if len(args) > 5 else []
     warnings.simplefilter("ignore")
     try:
         mod = importlib.import_module(f"vt.props.{pid}")
         h = Harness(pid, tier, seed, shard, nshards)
+        # regression tier: this shard's share of the committed replays
+        for path in replay_files:
+            with open(path) as f:
+                rec = json.load(f)
+            mod.replay(h, rec["recipe"])
+            h.classes["replayed_regressions"] += 1
         mod.checks(h)
         return ("ok", h.export())
     except BaseException:  # harness error
@@ -381,23 +388,17 @@ def main(argv=None) -> int:
             h.known = [] if os.environ.get("VT_REPLAY_RAW") else h.known
             return _finish(h, mod, t0, replay_only=True)
 
-        # ---- regression tier: committed replays (known-finding witnesses, fixed defects) --
+        # ---- regression tier: committed replays (known-finding witnesses, fixed defects) are
+        #      distributed over the shards and executed before the generated search
         rdir = os.path.join(ROOT, "replays", pid)
-        replayed = 0
+        rfiles = []
         if os.path.isdir(rdir):
-            for fn in sorted(os.listdir(rdir)):
-                if not fn.endswith(".json"):
-                    continue
-                with open(os.path.join(rdir, fn)) as f:
-                    rec = json.load(f)
-                mod.replay(h, rec["recipe"])
-                replayed += 1
-        h.classes["replayed_regressions"] = replayed
+            rfiles = [os.path.join(rdir, fn) for fn in sorted(os.listdir(rdir)) if fn.endswith(".json")]
 
         # ---- generated search, sharded ---------------------------------------------------
         nsh = a.shards or getattr(mod, "SHARDS", {}).get(tier, 8 if tier == "quick" else 16)
         h.nshards = nsh
-        jobs = [(pid, tier, seed, i, nsh) for i in range(nsh)]
+        jobs = [(pid, tier, seed, i, nsh, rfiles[i::nsh]) for i in range(nsh)]
         if nsh == 1:
             results = [_run_shard(jobs[0])]
         else:
